@@ -268,3 +268,430 @@ Proof.
   [change (267 =? 267) with true | change (523 =? 267) with false; change (523 =? 523) with true]; cbv iota;
   repeat decide_if; unfold page_of in H18; rewrite H14, H15, H16, H17, H18, H19, H20, D; norm_off; reflexivity.
 Qed.
+
+(* ------------------------------------------------------------------ DigestPE split into scan (headers + sections) and trailer *)
+Definition scan_body (f : bytes) (hv : hvals) : result (Z * bytes) :=
+  let tblend := pe_sectbl_end (hv_sectbl hv) (pe_sectbl_size (hv_nsec hv)) in
+  if pe_table_overlaps_hdr tblend (hv_soh hv) then Err E_TBLOVER else
+  if zlen f <? tblend then Err E_EOF else
+  adj <- adjust_secs (read_secs f (hv_sectbl hv) (Z.to_nat (hv_nsec hv)) 0) 0 (hv_nsec hv) tblend (hv_falign hv) (hv_soh hv) ;;
+  let secs := fst adj in
+  let soh := snd adj in
+  if zlen f <? tblend + pe_hdr_padding_len soh tblend then Err E_EOF else
+  let hdr := concat (header_pieces f hv soh) in
+  let ptr0 := match secs with (p, _) :: _ => p | [] => 0 end in
+  let gap := pe_has_gap (hv_nsec hv) ptr0 soh in
+  if gap && (zlen f <? soh + pe_gap_len ptr0 soh) then Err E_GAPREAD else
+  let next := if gap then ptr0 else soh in
+  let gapbytes := if gap then zslice soh (soh + pe_gap_len ptr0 soh) f else [] in
+  hs <- hash_secs f secs next ;;
+  Ok (fst hs, hdr ++ gapbytes ++ snd hs).
+
+Definition pad_of (orig : Z) : Z := if pe_pad_needed (pe_pad_rem orig) then pe_pad_len (pe_pad_rem orig) else 0.
+
+Lemma digest_unfold f :
+  digest_pe f =
+  (hv <- read_nt f ;; s <- scan_body f hv ;;
+   tr <- read_trailer f (fst s) (hv_certstart hv) (hv_certsize hv) ;;
+   Ok (mkDg (fst tr) (fst tr + pad_of (fst tr)) (hv_posdd hv) (hv_certsize hv) (snd s ++ snd tr ++ zeros (pad_of (fst tr))))).
+Proof.
+  unfold digest_pe, scan_body, pad_of.
+  destruct (read_nt f) as [hv| |]; cbn [bind]; try reflexivity.
+  destruct (pe_table_overlaps_hdr _ _); try reflexivity.
+  destruct (zlen f <? _); try reflexivity.
+  destruct (adjust_secs _ _ _ _ _ _) as [adj| |]; cbn [bind]; try reflexivity.
+  destruct (zlen f <? _); try reflexivity.
+  destruct (_ && _); try reflexivity.
+  destruct (hash_secs _ _ _) as [hs| |]; cbn [bind fst snd]; try reflexivity.
+  destruct (read_trailer _ _ _ _) as [tr| |]; cbn [bind]; try reflexivity.
+  change pe_certstart_padded with true. cbv iota. f_equal. f_equal. rewrite <- !app_assoc. reflexivity.
+Qed.
+
+Definition nonneg_sizes (secs : list (Z * Z)) : Prop := Forall (fun s => 0 <= snd s) secs.
+
+Lemma wrap32_nonneg n : 0 <= wrap32 n.
+Proof. unfold wrap32. pose proof (Z.mod_pos_bound n 4294967296). lia. Qed.
+Lemma align32_nonneg a al : 0 <= a -> 0 <= align32 a al.
+Proof.
+  intros H. unfold align32. destruct (pe_align_needed _); [|exact H].
+  change pe_align_adds with true. cbv iota. apply wrap32_nonneg.
+Qed.
+
+Lemma adjust_inv secs : forall i nsec tblend falign soh secs' soh',
+  adjust_secs secs i nsec tblend falign soh = Ok (secs', soh') ->
+  tblend <= soh -> nonneg_sizes secs ->
+  tblend <= soh' <= soh /\ nonneg_sizes secs'.
+Proof.
+  induction secs as [|[ptr size] r IH]; intros i nsec tblend falign soh secs' soh' H Hs Hn.
+  - cbn in H. inversion H; subst. split; [lia|constructor].
+  - inversion Hn as [|x l Hx Hr]; subst. cbn [snd] in Hx.
+    cbn [adjust_secs] in H.
+    destruct (pe_rs_skip_empty size) eqn:E1.
+    + destruct (adjust_secs r (i + 1) nsec tblend falign soh) as [[s2 h2]| |] eqn:E; cbn [bind fst snd] in H; try discriminate.
+      inversion H; subst. destruct (IH _ _ _ _ _ _ _ E Hs Hr) as [B N]. split; [exact B|]. constructor; [exact Hx|exact N].
+    + destruct (pe_sec_overlaps_table ptr tblend) eqn:E2; try discriminate.
+      autounfold with pegen in E2. zb.
+      set (soh1 := if pe_sec_before_hdr_end ptr soh && pe_hdr_shrinks_to_section then ptr else soh) in *.
+      assert (B1 : tblend <= soh1 <= soh).
+      { unfold soh1. destruct (pe_sec_before_hdr_end ptr soh) eqn:E3; cbn [andb]; autounfold with pegen in *; zb; cbv iota; lia. }
+      destruct (pe_sec_not_last i nsec && pe_aligns_mid_sections).
+      * destruct (falign =? 0); try discriminate.
+        destruct (adjust_secs r (i + 1) nsec tblend falign soh1) as [[s2 h2]| |] eqn:E; cbn [bind fst snd] in H; try discriminate.
+        inversion H; subst. destruct (IH _ _ _ _ _ _ _ E (proj1 B1) Hr) as [B N]. split; [lia|].
+        constructor; [cbn [snd]; apply align32_nonneg; exact Hx|exact N].
+      * destruct (adjust_secs r (i + 1) nsec tblend falign soh1) as [[s2 h2]| |] eqn:E; cbn [bind fst snd] in H; try discriminate.
+        inversion H; subst. destruct (IH _ _ _ _ _ _ _ E (proj1 B1) Hr) as [B N]. split; [lia|].
+        constructor; [exact Hx|exact N].
+Qed.
+
+Lemma read_secs_nonneg f tbl n : forall i, all_bytes f = true -> nonneg_sizes (read_secs f tbl n i).
+Proof.
+  induction n as [|n IH]; intros i H; cbn [read_secs]; constructor.
+  - unfold sec_entry. cbn [snd]. pose proof (u32_range f (tbl + pe_sectbl_size i + sec_off_rawsize) H). lia.
+  - apply IH, H.
+Qed.
+
+Lemma hash_secs_inv f secs : forall next last bs,
+  hash_secs f secs next = Ok (last, bs) -> 0 <= next -> next <= zlen f -> nonneg_sizes secs ->
+  next <= last <= zlen f /\ bs = zslice next last f.
+Proof.
+  induction secs as [|[ptr size] r IH]; intros next last bs H H0 Hl Hn.
+  - cbn in H. inversion H; subst. split; [lia|]. rewrite zslice_nil_ge by lia. reflexivity.
+  - inversion Hn as [|x l Hx Hr]; subst. cbn [snd] in Hx. cbn [hash_secs] in H.
+    destruct (pe_dg_skip_empty size); [exact (IH _ _ _ H H0 Hl Hr)|].
+    destruct (pe_sec_not_contiguous ptr next); try discriminate.
+    destruct (zlen f <? next + size) eqn:E; try discriminate. zb.
+    change pe_next_advances with true in H. cbv iota in H.
+    destruct (hash_secs f r (next + size)) as [[l2 b2]| |] eqn:E2; cbn [bind fst snd] in H; try discriminate.
+    inversion H; subst. destruct (IH _ _ _ E2 ltac:(lia) ltac:(lia) Hr) as [B ->].
+    split; [lia|]. apply zslice_app_adj; lia.
+Qed.
+
+Lemma hash_secs_same f g secs : forall next last bs,
+  hash_secs f secs next = Ok (last, bs) -> 0 <= next -> next <= zlen f -> nonneg_sizes secs ->
+  last <= zlen g ->
+  (forall a b, next <= a -> a <= b -> b <= last -> zslice a b g = zslice a b f) ->
+  hash_secs g secs next = Ok (last, bs).
+Proof.
+  induction secs as [|[ptr size] r IH]; intros next last bs H H0 Hl Hn Hg Hs.
+  - exact H.
+  - inversion Hn as [|x l Hx Hr]; subst. cbn [snd] in Hx. cbn [hash_secs] in H |- *.
+    destruct (pe_dg_skip_empty size); [exact (IH _ _ _ H H0 Hl Hr Hg Hs)|].
+    destruct (pe_sec_not_contiguous ptr next); try discriminate.
+    destruct (zlen f <? next + size) eqn:E; try discriminate. zb.
+    change pe_next_advances with true in *. cbv iota in *.
+    destruct (hash_secs f r (next + size)) as [[l2 b2]| |] eqn:E2; cbn [bind fst snd] in H; try discriminate.
+    inversion H; subst.
+    destruct (hash_secs_inv _ _ _ _ _ E2 ltac:(lia) ltac:(lia) Hr) as [B _].
+    replace (zlen g <? next + size) with false by (symmetry; apply Z.ltb_ge; lia).
+    rewrite (IH _ _ _ E2 ltac:(lia) ltac:(lia) Hr Hg) by (intros; apply Hs; lia).
+    cbn [bind fst snd]. rewrite Hs by lia. reflexivity.
+Qed.
+
+Lemma adj {A} a b b' c (l : list A) : b = b' -> 0 <= a <= b -> b <= c -> zslice a b l ++ zslice b' c l = zslice a c l.
+Proof. intros <- H1 H2. apply zslice_app_adj; lia. Qed.
+
+(* the three stretches of the file the digest covers *)
+Definition lin (f : bytes) (ck dd orig : Z) : bytes := zslice 0 ck f ++ zslice (ck + 4) dd f ++ zslice (dd + 8) orig f.
+
+Lemma header_concat f hv soh :
+  64 <= hv_pe hv -> (hv_dd4 hv = 128 \/ hv_dd4 hv = 144) -> hv_dd4 hv + 8 <= hv_optsize hv -> 0 <= hv_nsec hv ->
+  hv_pe hv + 24 + hv_optsize hv + 40 * hv_nsec hv <= soh ->
+  concat (header_pieces f hv soh) = lin f (hv_pe hv + 88) (hv_pe hv + 24 + hv_dd4 hv) soh.
+Proof.
+  intros Hpe Hd Ho Hn Hs. unfold header_pieces, lin.
+  change pe_hashes_before_cksum with true. change pe_hashes_between with true. change pe_hashes_after_dd4 with true. cbv iota.
+  cbn [concat]. rewrite app_nil_r. autounfold with pegen. set (pe := hv_pe hv) in *. set (dd4 := hv_dd4 hv) in *.
+  set (os := hv_optsize hv) in *. set (ns := hv_nsec hv) in *.
+  assert (A : zslice 0 64 f ++ zslice 64 (64 + (pe - 64)) f ++ zslice pe (pe + 4) f ++ zslice (pe + 4) (pe + 4 + 20) f ++
+              zslice (pe + 4 + 20) (pe + 4 + 20 + 64) f = zslice 0 (pe + 88) f).
+  { repeat (erewrite adj by lia). f_equal; try lia. }
+  assert (C : zslice (pe + 4 + 20 + (dd4 + 8)) (pe + 4 + 20 + os) f ++ zslice (pe + 4 + 20 + os) (pe + 4 + 20 + os + ns * 40) f ++
+              zslice (pe + 4 + 20 + os + ns * 40) (pe + 4 + 20 + os + ns * 40 + (soh - (pe + 4 + 20 + os + ns * 40))) f
+              = zslice (pe + 24 + dd4 + 8) soh f).
+  { repeat (erewrite adj by lia). f_equal; try lia. }
+  rewrite <- A, <- C. rewrite <- !app_assoc. repeat (f_equal; try lia).
+Qed.
+
+Lemma nt_basic f hv : all_bytes f = true -> nt_facts f hv ->
+  64 <= hv_pe hv /\ (hv_dd4 hv = 128 \/ hv_dd4 hv = 144) /\ hv_dd4 hv + 96 <= hv_optsize hv /\ 0 <= hv_nsec hv /\
+  hv_sectbl hv = hv_pe hv + 24 + hv_optsize hv /\ hv_posdd hv = hv_pe hv + 24 + hv_dd4 hv /\
+  hv_pe hv + 24 + hv_optsize hv <= zlen f /\ 0 <= hv_soh hv /\ 0 <= hv_certsize hv < 4294967296 /\ 0 <= hv_certstart hv < 4294967296.
+Proof.
+  intros Hb (H1 & H2 & H3 & H4 & H5 & H6 & H7 & H8 & H9 & H10 & H11 & H12 & H13 & H14 & H15 & H16 & H17 & H18 & H19 & H20).
+  cbv zeta in *.
+  pose proof (u16_range f (hv_pe hv + 6) Hb). pose proof (u32_range f (hv_pe hv + 24 + 60) Hb).
+  pose proof (u32_range f (hv_pe hv + 24 + hv_dd4 hv) Hb). pose proof (u32_range f (hv_pe hv + 24 + hv_dd4 hv + 4) Hb).
+  repeat split; try lia; destruct H13 as [(M & D & O & N)|(M & D & O & N)]; lia.
+Qed.
+
+Lemma scan_inv f hv last bs : all_bytes f = true -> nt_facts f hv -> scan_body f hv = Ok (last, bs) ->
+  hv_sectbl hv + 40 * hv_nsec hv <= hv_soh hv /\ hv_sectbl hv + 40 * hv_nsec hv <= last /\ last <= zlen f /\
+  bs = lin f (hv_pe hv + 88) (hv_pe hv + 24 + hv_dd4 hv) last.
+Proof.
+  intros Hb Hnt H. destruct (nt_basic f hv Hb Hnt) as (Hpe & Hd & Ho & Hn & Hst & Hpd & Hlen & Hsoh & _).
+  unfold scan_body in H.
+  set (tblend := pe_sectbl_end (hv_sectbl hv) (pe_sectbl_size (hv_nsec hv))) in *.
+  assert (Ht : tblend = hv_sectbl hv + 40 * hv_nsec hv) by (unfold tblend; autounfold with pegen; lia).
+  destruct (pe_table_overlaps_hdr tblend (hv_soh hv)) eqn:E1; try discriminate.
+  destruct (zlen f <? tblend) eqn:E2; try discriminate.
+  destruct (adjust_secs _ _ _ _ _ _) as [[secs soh]| |] eqn:EA; cbn [bind fst snd] in H; try discriminate.
+  autounfold with pegen in E1. zb.
+  destruct (adjust_inv _ _ _ _ _ _ _ _ EA ltac:(lia) (read_secs_nonneg f _ _ 0 Hb)) as [Bs Nn].
+  destruct (zlen f <? tblend + pe_hdr_padding_len soh tblend) eqn:E3; try discriminate.
+  autounfold with pegen in E3. zb.
+  rewrite header_concat in H by lia.
+  set (ptr0 := match secs with (p, _) :: _ => p | [] => 0 end) in *.
+  destruct (pe_has_gap (hv_nsec hv) ptr0 soh) eqn:EG; cbn [andb] in H.
+  - destruct (zlen f <? soh + pe_gap_len ptr0 soh) eqn:E4; try discriminate.
+    autounfold with pegen in EG, E4. zb.
+    destruct (hash_secs f secs ptr0) as [[l2 b2]| |] eqn:EH; cbn [bind fst snd] in H; try discriminate.
+    inversion H; subst. destruct (hash_secs_inv _ _ _ _ _ EH ltac:(lia) ltac:(lia) Nn) as [B ->].
+    repeat split; try lia. unfold lin. rewrite <- !app_assoc. do 2 f_equal.
+    autounfold with pegen. rewrite (adj soh (soh + (ptr0 - soh)) ptr0 last) by lia.
+    apply adj; lia.
+  - destruct (hash_secs f secs soh) as [[l2 b2]| |] eqn:EH; cbn [bind fst snd app] in H; try discriminate.
+    inversion H; subst. destruct (hash_secs_inv _ _ _ _ _ EH ltac:(lia) ltac:(lia) Nn) as [B ->].
+    repeat split; try lia. unfold lin. rewrite <- !app_assoc. do 2 f_equal. apply adj; lia.
+Qed.
+
+(* g coincides with f on the three stretches [0,ck) [ck+4,dd) [dd+8,lim) *)
+Definition agree3 (f g : bytes) (ck dd lim : Z) : Prop :=
+  forall a b, 0 <= a -> a <= b ->
+    (b <= ck \/ (ck + 4 <= a /\ b <= dd) \/ (dd + 8 <= a /\ b <= lim)) -> zslice a b g = zslice a b f.
+
+Lemma u32_same f g ck dd lim off : agree3 f g ck dd lim -> 0 <= off ->
+  (off + 4 <= ck \/ (ck + 4 <= off /\ off + 4 <= dd) \/ (dd + 8 <= off /\ off + 4 <= lim)) -> u32 g off = u32 f off.
+Proof. intros A H0 H. unfold u32. rewrite !zsl_eq. rewrite (A off (off + 4)) by lia. reflexivity. Qed.
+Lemma u16_same f g ck dd lim off : agree3 f g ck dd lim -> 0 <= off ->
+  (off + 2 <= ck \/ (ck + 4 <= off /\ off + 2 <= dd) \/ (dd + 8 <= off /\ off + 2 <= lim)) -> u16 g off = u16 f off.
+Proof. intros A H0 H. unfold u16. rewrite !zsl_eq. rewrite (A off (off + 2)) by lia. reflexivity. Qed.
+Lemma byte_at_same f g ck dd lim off : agree3 f g ck dd lim -> 0 <= off ->
+  (off + 1 <= ck \/ (ck + 4 <= off /\ off + 1 <= dd) \/ (dd + 8 <= off /\ off + 1 <= lim)) -> byte_at g off = byte_at f off.
+Proof. intros A H0 H. rewrite !byte_at_slice by lia. rewrite (A off (off + 1)) by lia. reflexivity. Qed.
+
+Lemma read_secs_same f g ck dd lim tbl n : forall i, agree3 f g ck dd lim -> 0 <= i -> 0 <= tbl -> dd + 8 <= tbl ->
+  tbl + 40 * (i + Z.of_nat n) <= lim -> read_secs g tbl n i = read_secs f tbl n i.
+Proof.
+  induction n as [|n IH]; intros i A Hi Ht0 Ht Hl; [reflexivity|].
+  cbn [read_secs]. f_equal.
+  - unfold sec_entry. autounfold with pegen. f_equal; eapply u32_same; eauto; lia.
+  - apply IH; auto; lia.
+Qed.
+
+Lemma lin_same f g ck dd lim x : agree3 f g ck dd lim -> 0 <= ck -> ck + 4 <= dd -> dd + 8 <= x -> x <= lim ->
+  lin g ck dd x = lin f ck dd x.
+Proof.
+  intros A H1 H2 H3 H4. unfold lin. rewrite (A 0 ck), (A (ck + 4) dd), (A (dd + 8) x) by lia. reflexivity.
+Qed.
+
+Lemma scan_same f g hv last bs : all_bytes f = true -> nt_facts f hv -> scan_body f hv = Ok (last, bs) ->
+  last <= zlen g -> agree3 f g (hv_pe hv + 88) (hv_pe hv + 24 + hv_dd4 hv) last ->
+  scan_body g hv = Ok (last, bs).
+Proof.
+  intros Hb Hnt H Hg A. destruct (nt_basic f hv Hb Hnt) as (Hpe & Hd & Ho & Hn & Hst & Hpd & Hlen & Hsoh & _).
+  destruct (scan_inv f hv last bs Hb Hnt H) as (S1 & S2 & S3 & S4).
+  unfold scan_body in H |- *.
+  set (tblend := pe_sectbl_end (hv_sectbl hv) (pe_sectbl_size (hv_nsec hv))) in *.
+  assert (Ht : tblend = hv_sectbl hv + 40 * hv_nsec hv) by (unfold tblend; autounfold with pegen; lia).
+  destruct (pe_table_overlaps_hdr tblend (hv_soh hv)) eqn:E1; try discriminate.
+  destruct (zlen f <? tblend) eqn:E2; try discriminate.
+  replace (zlen g <? tblend) with false by (symmetry; apply Z.ltb_ge; lia).
+  rewrite (read_secs_same f g _ _ last (hv_sectbl hv) (Z.to_nat (hv_nsec hv)) 0 A) by lia.
+  destruct (adjust_secs _ _ _ _ _ _) as [[secs soh]| |] eqn:EA; cbn [bind fst snd] in H |- *; try discriminate.
+  autounfold with pegen in E1. zb.
+  destruct (adjust_inv _ _ _ _ _ _ _ _ EA ltac:(lia) (read_secs_nonneg f _ _ 0 Hb)) as [Bs Nn].
+  destruct (zlen f <? tblend + pe_hdr_padding_len soh tblend) eqn:E3; try discriminate.
+  autounfold with pegen in E3. zb.
+  rewrite header_concat in H by lia. rewrite header_concat by lia.
+  set (ptr0 := match secs with (p, _) :: _ => p | [] => 0 end) in *.
+  destruct (pe_has_gap (hv_nsec hv) ptr0 soh) eqn:EG; cbn [andb] in H |- *.
+  - destruct (zlen f <? soh + pe_gap_len ptr0 soh) eqn:E4; try discriminate.
+    autounfold with pegen in EG, E4. zb.
+    destruct (hash_secs f secs ptr0) as [[l2 b2]| |] eqn:EH; cbn [bind fst snd] in H; try discriminate.
+    inversion H; subst l2. destruct (hash_secs_inv _ _ _ _ _ EH ltac:(lia) ltac:(lia) Nn) as [B _].
+    replace (zlen g <? tblend + pe_hdr_padding_len soh tblend) with false by (symmetry; autounfold with pegen; apply Z.ltb_ge; lia).
+    replace (zlen g <? soh + pe_gap_len ptr0 soh) with false by (symmetry; autounfold with pegen; apply Z.ltb_ge; lia).
+    rewrite (hash_secs_same f g secs ptr0 last b2 EH) by (try lia; try exact Nn; intros; apply A; lia).
+    cbn [bind fst snd]. rewrite (lin_same f g _ _ last soh A) by lia.
+    autounfold with pegen. rewrite (A soh (soh + (ptr0 - soh))) by lia. reflexivity.
+  - destruct (hash_secs f secs soh) as [[l2 b2]| |] eqn:EH; cbn [bind fst snd] in H; try discriminate.
+    inversion H; subst l2. destruct (hash_secs_inv _ _ _ _ _ EH ltac:(lia) ltac:(lia) Nn) as [B _].
+    replace (zlen g <? tblend + pe_hdr_padding_len soh tblend) with false by (symmetry; autounfold with pegen; apply Z.ltb_ge; lia).
+    rewrite (hash_secs_same f g secs soh last b2 EH) by (try lia; try exact Nn; intros; apply A; lia).
+    cbn [bind fst snd]. rewrite (lin_same f g _ _ last soh A) by lia. reflexivity.
+Qed.
+
+Lemma trailer_inv f last cs sz orig bs : read_trailer f last cs sz = Ok (orig, bs) -> 0 <= last <= zlen f -> 0 <= sz ->
+  (sz = 0 /\ orig = zlen f /\ bs = zslice last (zlen f) f) \/
+  (sz <> 0 /\ last <= cs /\ orig = cs /\ cs + sz = zlen f /\ bs = zslice last cs f).
+Proof.
+  unfold read_trailer. intros H Hl Hs. repeat break_if H; autounfold with pegen in *; zb; inversion H; subst.
+  - left. repeat split; try lia. symmetry. apply zslice_to_end.
+  - right. repeat split; lia.
+Qed.
+
+Lemma pad_of_spec orig : 0 <= orig -> 0 <= pad_of orig < 8 /\ (orig + pad_of orig) mod 8 = 0 /\ pad_of orig = (8 - orig mod 8) mod 8.
+Proof.
+  intros H. unfold pad_of. autounfold with pegen. rewrite Z.rem_mod_nonneg by lia.
+  destruct (orig mod 8 =? 0) eqn:E; cbn [negb]; zb; lia.
+Qed.
+
+Lemma digest_inv f d : all_bytes f = true -> digest_pe f = Ok d ->
+  exists hv, nt_facts f hv /\
+    hv_pe hv + 24 + hv_dd4 hv + 8 <= dg_orig d /\ dg_orig d <= zlen f /\
+    dg_posdd d = hv_pe hv + 24 + hv_dd4 hv /\ dg_oldsize d = hv_certsize hv /\
+    (hv_certsize hv = 0 -> dg_orig d = zlen f) /\ (hv_certsize hv <> 0 -> dg_orig d = hv_certstart hv) /\
+    dg_orig d + hv_certsize hv = zlen f /\
+    dg_certstart d = dg_orig d + pad_of (dg_orig d) /\
+    dg_pre d = lin f (hv_pe hv + 88) (hv_pe hv + 24 + hv_dd4 hv) (dg_orig d) ++ zeros (pad_of (dg_orig d)) /\
+    exists last bs, scan_body f hv = Ok (last, bs) /\ last <= dg_orig d /\ hv_sectbl hv + 40 * hv_nsec hv <= hv_soh hv.
+Proof.
+  intros Hb H. rewrite digest_unfold in H.
+  destruct (read_nt f) as [hv| |] eqn:EN; cbn [bind] in H; try discriminate.
+  apply read_nt_facts in EN. exists hv. split; [exact EN|].
+  destruct (nt_basic f hv Hb EN) as (Hpe & Hd & Ho & Hn & Hst & Hpd & Hlen & Hsoh & Hcz & Hcs).
+  destruct (scan_body f hv) as [[last bs]| |] eqn:ES; cbn [bind fst snd] in H; try discriminate.
+  destruct (scan_inv f hv last bs Hb EN ES) as (S1 & S2 & S3 & S4).
+  destruct (read_trailer f last (hv_certstart hv) (hv_certsize hv)) as [[orig tb]| |] eqn:ET; cbn [bind fst snd] in H; try discriminate.
+  inversion H; subst d; clear H. cbn [dg_orig dg_certstart dg_posdd dg_oldsize dg_pre].
+  destruct (trailer_inv _ _ _ _ _ _ ET ltac:(lia) ltac:(lia)) as [(Z0 & -> & ->)|(Z0 & T1 & -> & T2 & ->)].
+  - repeat (split; [lia|]). split.
+    + rewrite S4. unfold lin. rewrite <- !app_assoc. do 2 f_equal. rewrite app_assoc. f_equal. apply adj; lia.
+    + exists last, bs. split; [reflexivity|]. lia.
+  - repeat (split; [lia|]). split.
+    + rewrite S4. unfold lin. rewrite <- !app_assoc. do 2 f_equal. rewrite app_assoc. f_equal. apply adj; lia.
+    + exists last, bs. split; [reflexivity|]. lia.
+Qed.
+
+(* ------------------------------------------------------------------ the shape of a signed file *)
+Definition shape (f : bytes) (ck dd orig : Z) (c4 d8 tail : bytes) : bytes :=
+  zslice 0 ck f ++ c4 ++ zslice (ck + 4) dd f ++ d8 ++ zslice (dd + 8) orig f ++ tail.
+
+Section Shape.
+  Variables (f c4 d8 tail : bytes) (ck dd orig : Z).
+  Hypothesis Hc4 : zlen c4 = 4.
+  Hypothesis Hd8 : zlen d8 = 8.
+  Hypothesis Hck : 0 <= ck.
+  Hypothesis Hdd : ck + 4 <= dd.
+  Hypothesis Horig : dd + 8 <= orig <= zlen f.
+  Let g := shape f ck dd orig c4 d8 tail.
+  Let LA : zlen (zslice 0 ck f) = ck. Proof. rewrite zlen_zslice; lia. Qed.
+  Let LB : zlen (zslice (ck + 4) dd f) = dd - ck - 4. Proof. rewrite zlen_zslice; lia. Qed.
+  Let LC : zlen (zslice (dd + 8) orig f) = orig - dd - 8. Proof. rewrite zlen_zslice; lia. Qed.
+
+  Lemma shape_len : zlen g = orig + zlen tail.
+  Proof. unfold g, shape. rewrite !zlen_app, LA, LB, LC, Hc4, Hd8. lia. Qed.
+
+  Lemma shape_r1 a b : 0 <= a -> a <= b -> b <= ck -> zslice a b g = zslice a b f.
+  Proof.
+    intros H1 H2 H3. unfold g, shape. rewrite zslice_app1 by lia.
+    replace a with (a - 0) at 1 by lia. replace b with (b - 0) at 1 by lia. apply zslice_sub; lia.
+  Qed.
+  Lemma shape_ck : zslice ck (ck + 4) g = c4.
+  Proof. unfold g, shape. apply zslice_exact; lia. Qed.
+  Lemma shape_r2 a b : ck + 4 <= a -> a <= b -> b <= dd -> zslice a b g = zslice a b f.
+  Proof.
+    intros H1 H2 H3. unfold g, shape. rewrite zslice_app2 by lia. rewrite zslice_app2 by lia.
+    rewrite zslice_app1 by lia. rewrite LA, Hc4.
+    replace (a - ck - 4) with (a - (ck + 4)) by lia. replace (b - ck - 4) with (b - (ck + 4)) by lia. apply zslice_sub; lia.
+  Qed.
+  Lemma shape_dd : zslice dd (dd + 8) g = d8.
+  Proof.
+    unfold g, shape. rewrite zslice_app2 by lia. rewrite zslice_app2 by lia. rewrite LA, Hc4.
+    apply zslice_exact; lia.
+  Qed.
+  Lemma shape_r3 a b : dd + 8 <= a -> a <= b -> b <= orig -> zslice a b g = zslice a b f.
+  Proof.
+    intros H1 H2 H3. unfold g, shape. rewrite zslice_app2 by lia. rewrite zslice_app2 by lia. rewrite zslice_app2 by lia.
+    rewrite zslice_app2 by lia. rewrite zslice_app1 by lia. rewrite LA, Hc4, LB, Hd8.
+    replace (a - ck - 4 - (dd - ck - 4) - 8) with (a - (dd + 8)) by lia.
+    replace (b - ck - 4 - (dd - ck - 4) - 8) with (b - (dd + 8)) by lia. apply zslice_sub; lia.
+  Qed.
+  Lemma shape_tail a b : orig <= a -> zslice a b g = zslice (a - orig) (b - orig) tail.
+  Proof.
+    intros H1. unfold g, shape. rewrite zslice_app2 by lia. rewrite zslice_app2 by lia. rewrite zslice_app2 by lia.
+    rewrite zslice_app2 by lia. rewrite zslice_app2 by lia. rewrite LA, Hc4, LB, Hd8, LC. f_equal; lia.
+  Qed.
+  Lemma shape_agree : agree3 f g ck dd orig.
+  Proof.
+    intros a b H1 H2 [H|[[H H']|[H H']]]; [apply shape_r1|apply shape_r2|apply shape_r3]; lia.
+  Qed.
+  Lemma shape_take_orig : ztake orig g = zslice 0 ck f ++ c4 ++ zslice (ck + 4) dd f ++ d8 ++ zslice (dd + 8) orig f.
+  Proof.
+    unfold g, shape.
+    replace (zslice 0 ck f ++ c4 ++ zslice (ck + 4) dd f ++ d8 ++ zslice (dd + 8) orig f ++ tail)
+      with ((zslice 0 ck f ++ c4 ++ zslice (ck + 4) dd f ++ d8 ++ zslice (dd + 8) orig f) ++ tail)
+      by (rewrite <- !app_assoc; reflexivity).
+    apply ztake_app_exact. rewrite !zlen_app, LA, LB, LC, Hc4, Hd8. lia.
+  Qed.
+End Shape.
+
+Lemma patched_shape f ck dd orig old d8 tbl : 0 <= ck -> ck + 4 <= dd -> dd + 8 <= orig -> orig + old = zlen f -> 0 <= old ->
+  replace1 dd 8 d8 (replace1 orig old tbl f) = shape f ck dd orig (zslice ck (ck + 4) f) d8 tbl.
+Proof.
+  intros H1 H2 H3 H4 H5. unfold replace1, shape.
+  rewrite (zdrop_all (orig + old) f) by lia. rewrite app_nil_r.
+  assert (L : zlen (ztake orig f) = orig) by (apply zlen_ztake; lia).
+  rewrite ztake_app_l by lia. rewrite ztake_ztake by lia.
+  rewrite zdrop_app_l by lia.
+  rewrite <- ?app_assoc. rewrite (ztake_as_slice dd f).
+  rewrite <- (adj 0 ck ck dd f) by lia. rewrite <- (adj ck (ck + 4) (ck + 4) dd f) by lia.
+  rewrite <- !app_assoc. do 4 f_equal.
+  unfold zslice. rewrite zdrop_ztake by lia. reflexivity.
+Qed.
+
+Lemma replace_ck f ck dd orig c4 c4' d8 tail : zlen c4 = 4 -> 0 <= ck <= zlen f ->
+  replace1 ck 4 c4' (shape f ck dd orig c4 d8 tail) = shape f ck dd orig c4' d8 tail.
+Proof.
+  intros H4 Hck. unfold replace1, shape.
+  assert (LA : zlen (zslice 0 ck f) = ck) by (rewrite zlen_zslice; lia).
+  rewrite ztake_app_exact by exact LA.
+  rewrite zdrop_app_r by lia. rewrite LA. replace (ck + 4 - ck) with 4 by lia.
+  rewrite zdrop_app_exact by exact H4. reflexivity.
+Qed.
+
+Lemma le_enc_zlen4 n : zlen (le_enc 4 n) = 4.
+Proof. apply le_enc_zlen. Qed.
+
+Lemma asc2 off1 old1 b1 off2 old2 b2 L : 0 <= off1 -> 0 <= old1 -> off1 + old1 <= off2 -> 0 <= old2 -> off2 + old2 <= L ->
+  asc_disjoint 0 [mkPatch off1 old1 b1; mkPatch off2 old2 b2] L = true.
+Proof.
+  intros. cbn [asc_disjoint p_off p_old]. repeat (apply andb_true_iff; split); try reflexivity; apply Z.leb_le; lia.
+Qed.
+
+Lemma embed_shape f d sig : all_bytes f = true -> digest_pe f = Ok d -> dg_certstart d < 4294967296 ->
+  exists hv c4, nt_facts f hv /\ zlen c4 = 4 /\ all_bytes c4 = true /\
+    embed f sig = Ok (shape f (hv_pe hv + 88) (hv_pe hv + 24 + hv_dd4 hv) (dg_orig d) c4 (dd_entry d sig) (cert_table d sig)).
+Proof.
+  intros Hb H Hc. destruct (digest_inv f d Hb H) as (hv & Hnt & D1 & D2 & D3 & D4 & D5 & D6 & D7 & D8 & D9 & _).
+  destruct (nt_basic f hv Hb Hnt) as (Hpe & Hd & Ho & Hn & Hst & Hpd & Hlen & Hsoh & Hcz & Hcs).
+  exists hv. unfold embed. rewrite H. cbn [bind]. unfold make_patch.
+  replace (pe_mp_too_big (dg_certstart d)) with false
+    by (symmetry; unfold pe_mp_too_big; change (Z.shiftl 1 32) with 4294967296; rewrite Z.geb_leb; apply Z.leb_gt; lia).
+  cbn [bind]. unfold apply_patch. autounfold with pegen. rewrite D3, D4.
+  set (dde := dd_entry d sig). set (tbl := cert_table d sig).
+  set (cs := [mkCall _ 8 dde; mkCall _ _ tbl]).
+  assert (AS : asc_disjoint 0 (map call_patch cs) (zlen f) = true).
+  { unfold cs. cbn [map call_patch c_off c_old c_blob]. apply asc2; cbn [c_off c_old c_blob]; lia. }
+  destruct (add_fileorder_sound cs f AS) as [AS2 SP]. rewrite (rewrite_sorted _ _ AS2), SP.
+  unfold cs. cbn [map call_patch c_off c_old c_blob splice fold_right p_off p_old p_blob].
+  rewrite (patched_shape f (hv_pe hv + 88)) by lia.
+  set (g0 := shape f _ _ _ _ dde tbl). cbn [bind].
+  assert (L8 : zlen dde = 8) by (unfold dde, dd_entry; rewrite zlen_app, !le_enc_zlen4; lia).
+  assert (L4 : zlen (zslice (hv_pe hv + 88) (hv_pe hv + 88 + 4) f) = 4) by (rewrite zlen_zslice; lia).
+  assert (A : agree3 f g0 (hv_pe hv + 88) (hv_pe hv + 24 + hv_dd4 hv) (dg_orig d)) by (apply shape_agree; lia).
+  assert (Lg : zlen g0 = dg_orig d + zlen tbl) by (apply shape_len; lia).
+  pose proof (zlen_nonneg tbl).
+  pose proof Hnt as Hnt'. destruct Hnt as (N1 & N2 & N3 & N4 & _).
+  unfold fix_checksum. autounfold with pegen.
+  replace (zlen g0 <? 64) with false by (symmetry; apply Z.ltb_ge; lia).
+  rewrite (byte_at_same f g0 _ _ _ 0 A), (byte_at_same f g0 _ _ _ 1 A), (u32_same f g0 _ _ _ 60 A) by lia.
+  rewrite N2, N3, <- N4. cbn [Z.eqb Pos.eqb negb orb].
+  replace (hv_pe hv <? 64) with false by (symmetry; apply Z.ltb_ge; lia).
+  eexists. split; [|split; [|split]].
+  4: { f_equal. rewrite write_at_same by (rewrite ?le_enc_zlen4; lia). rewrite le_enc_zlen4. unfold g0. apply replace_ck; [exact L4|lia]. }
+  - exact Hnt'.
+  - apply le_enc_zlen4.
+  - apply le_enc_bytes.
+Qed.
